@@ -3801,6 +3801,8 @@ impl GraphEngine {
     /// Returns `EdgeNotFound` if the edge doesn't exist.
     #[allow(clippy::needless_pass_by_value)] // ownership avoids caller clones
     pub fn update_edge(&self, id: u64, properties: HashMap<String, PropertyValue>) -> Result<()> {
+        Self::validate_user_property_names(&properties)?;
+
         // Get old edge for index maintenance
         let old_edge = self.get_edge(id)?;
 
@@ -7905,12 +7907,24 @@ impl GraphEngine {
         clippy::significant_drop_in_scrutinee,
         clippy::significant_drop_tightening
     )]
+    /// Names starting with `_` are the engine's own record fields (`_id`, `_from`, `_to`,
+    /// `_directed`, `_labels`, ...): a user property of that name would overwrite them.
+    fn validate_user_property_names(properties: &HashMap<String, PropertyValue>) -> Result<()> {
+        for name in properties.keys() {
+            if name.starts_with('_') {
+                return Err(GraphError::InvalidPropertyName { name: name.clone() });
+            }
+        }
+        Ok(())
+    }
+
     fn validate_node_constraints(
         &self,
         labels: &[String],
         properties: &HashMap<String, PropertyValue>,
         exclude_id: Option<u64>,
     ) -> Result<()> {
+        Self::validate_user_property_names(properties)?;
         let constraints = self.constraints.read();
 
         for constraint in constraints.values() {
@@ -7990,6 +8004,7 @@ impl GraphEngine {
         properties: &HashMap<String, PropertyValue>,
         exclude_id: Option<u64>,
     ) -> Result<()> {
+        Self::validate_user_property_names(properties)?;
         let constraints = self.constraints.read();
 
         for constraint in constraints.values() {
